@@ -3,13 +3,14 @@
 package c06
 
 import (
-	"slices"
 	"bytes"
 	"fmt"
 	"math/rand/v2"
 	"net/netip"
+	"slices"
 	"strings"
 	"sync"
+	"time"
 
 	"github.com/mycoria/mycoria/config"
 	"github.com/mycoria/mycoria/frame"
@@ -45,8 +46,8 @@ type refPolicy struct {
 	services []refService
 	// extraPorts: ports an ill-formed service could be mistaken for (e.g. an out-of-range port modulo 65536)
 	extraPorts []uint16
-	isolate  bool
-	friends  map[netip.Addr]bool
+	isolate    bool
+	friends    map[netip.Addr]bool
 }
 
 func (rp *refPolicy) inbound(proto uint8, port uint16, sender netip.Addr) (bool, *refService) {
@@ -508,6 +509,15 @@ func runConfig(res *core.Result, pool *idPool, r *rand.Rand, full bool) {
 					res.Violate("handler-panic", fmt.Sprintf("control pings after refused traffic: %v [%s]", ms.Panics[0], cfgDesc), wit(map[string]any{"variant": "after-control-pings"}))
 					return
 				}
+				// time passes (the flow is quiet for a while; the cleaners run): a refusal does not expire into an admission
+				quiet := []time.Duration{0, 11 * time.Second, 61 * time.Second, 11 * time.Minute}[r.IntN(4)]
+				if quiet > 0 {
+					V.Inst.RouterV.VerifAdvanceTime(quiet)
+					if r.IntN(2) == 0 {
+						_ = V.Inst.RouterV.VerifHousekeeping()
+					}
+					res.Count("refused_flows_retried_after_quiet_time", 1)
+				}
 				// a "no encryption keys" error legitimately discards keys: set them up again if so
 				sess = S.Inst.StateV.GetSession(V.ID.IP)
 				if sess == nil || !sess.Encryption().IsSetUp() {
@@ -534,7 +544,7 @@ func runConfig(res *core.Result, pool *idPool, r *rand.Rand, full bool) {
 				ms.Take(ms.Pending() - 1)
 				ms.Deliver(p2)
 				if got2 := drainTun(); len(got2) > 0 {
-					res.Violate("forbidden-packet-delivered:after-control-pings", desc+": refused at first, but handed to the local interface when sent again after authentic error pings (unreachable, generic, access-denied, rejected) and a pong request from the sender and a third router ["+cfgDesc+"]",
+					res.Violate("forbidden-packet-delivered:after-control-pings", desc+": refused at first, but handed to the local interface when sent again after authentic error pings (unreachable, generic, access-denied, rejected) and a pong request from the sender and a third router, and "+quiet.String()+" of quiet ["+cfgDesc+"]",
 						wit(map[string]any{"variant": "after-control-pings", "proto": proto, "port": dport}))
 					return
 				}
@@ -699,9 +709,19 @@ func runConfig(res *core.Result, pool *idPool, r *rand.Rand, full bool) {
 					ms.Drain(vmesh.FIFO, 100)
 				}
 				drainTun()
-				for k := 0; k < 3; k++ {
+				quiet := []time.Duration{0, 11 * time.Second, 61 * time.Second, 11 * time.Minute}[r.IntN(4)]
+				if quiet > 0 {
+					V.Inst.RouterV.VerifAdvanceTime(quiet)
+					if r.IntN(2) == 0 {
+						_ = V.Inst.RouterV.VerifHousekeeping()
+					}
+				}
+				for k := 0; k < 4; k++ {
 					fromV = fromV[:0]
-					pkt2 := ipv6Packet(V.ID.IP, D.ID.IP, []uint8{oproto, 6, 17}[k], uint16(31000+sent+k), uint16(2000+k), core.RandBytes(r, 16))
+					pkt2 := ipv6Packet(V.ID.IP, D.ID.IP, []uint8{oproto, 6, 17, 0}[k], uint16(31000+sent+k), uint16(2000+k), core.RandBytes(r, 16))
+					if k == 3 {
+						pkt2 = pkt // the very same connection again
+					}
 					if perr := V.Inst.RouterV.VerifHandleTunPacket(mkLocal(pkt2)); perr != nil {
 						res.Violate("handler-panic", fmt.Sprintf("local packet after control pings: %v [%s]", perr, cfgDesc), wit(map[string]any{"packet": l.name}))
 						return
